@@ -38,6 +38,10 @@ CLAIMS["C12"] = ("other", "field-to-field provenance of blind values into the ha
   "Decides that charged and published blinds are copied field by field from one consistent snapshot of the level taken at hand start, that the published record is not an alias of the mutable level, who may write the level, and that the break guards are in place. One genuine torn-read defect was repaired (fix: commit). Arbitrary unsynchronised update schedules beyond the single-read rule are not decided.",
   "DESIGN.md §4 C12, §5 F9", TRUST)
 
+CLAIMS["C15"] = ("other", "who-may-write + value-shape (provenance) matching of every deadline store; dominance and func-value wiring of the clearing hook",
+  "Decides that the published deadline is written only as now+action time, zero, or old+seconds (returned unchanged by the extension), and that the clearing hook is wired to round close and to the between-hands reset. It does not decide the predicate that says when a turn publishes a deadline.",
+  "DESIGN.md §4 C15", TRUST)
+
 REASONS = {}
 
 checks = []
